@@ -562,6 +562,17 @@ def _check_pins() -> None:
         parts.append(f"## serving.WSGIRequestHandler.{name}\n" + px.skeleton(find_method(h, name)))
     own = [n.name for n in h.body if isinstance(n, ast.FunctionDef)]
     parts.append("## serving.WSGIRequestHandler defines\n" + " ".join(own))
+    # every class-level statement that is not a method: an attribute such as rbufsize / wbufsize / protocol_version / timeout
+    # changes how socketserver and http.server build rfile / wfile and frame the exchange
+    level = []
+    for n in h.body:
+        if isinstance(n, ast.FunctionDef) or (isinstance(n, ast.Expr) and isinstance(n.value, ast.Constant)):
+            continue
+        t = ast.unparse(n)
+        level.append(t if len(t) < 200 else t[:60] + " ...")
+    parts.append("## serving.WSGIRequestHandler class-level statements, bases " + ", ".join(ast.unparse(b_) for b_ in h.bases)
+                 + "\n" + "\n".join(level))
+    parts.append("## serving.DechunkedInput bases\n" + ", ".join(ast.unparse(b_) for b_ in px.find_class(mod, "DechunkedInput").bases))
     parts.append("## _internal._wsgi_encoding_dance\n" + px.skeleton(px.find_def(px.load("_internal.py"), "_wsgi_encoding_dance")))
     px.check_pin("C19", "c19_serving.txt", "\n".join(parts) + "\n",
                  "serving.DechunkedInput / WSGIRequestHandler (make_environ, run_wsgi, dispatch, handle)")
@@ -850,7 +861,37 @@ class _Srv:
 _HCACHE: dict = {}
 
 
-def drive_handler(raw: bytes, app, proto: str) -> bytes:
+class SegSocket(socket.socket):
+    """the server side of the socket pair, delivering the request in SEGMENTS: one recv / recv_into never crosses the next
+    cut offset, as if the bytes had arrived in separate TCP segments.  The handler builds rfile from it exactly as
+    socketserver.StreamRequestHandler.setup does (socket.makefile('rb', self.rbufsize) -> SocketIO(self) [+ BufferedReader]),
+    so a buffered rfile still returns full reads while an unbuffered one returns short reads at the cuts.  Deterministic:
+    the whole request is already in the socket buffer, no threads, no timing."""
+
+    def set_cuts(self, cuts):
+        self._cuts = sorted(set(cuts))
+        self._got = 0
+
+    def _room(self, n):
+        for c in getattr(self, "_cuts", ()):
+            if c > self._got:
+                return min(n, c - self._got)
+        return n
+
+    def recv_into(self, buffer, nbytes=0, flags=0):
+        mv = memoryview(buffer)
+        n = self._room(nbytes or len(mv))
+        k = super().recv_into(mv[:n], n, flags)
+        self._got += k
+        return k
+
+    def recv(self, bufsize, flags=0):
+        d = super().recv(self._room(bufsize), flags)
+        self._got += len(d)
+        return d
+
+
+def drive_handler(raw: bytes, app, proto: str, cuts=None) -> bytes:
     from werkzeug.serving import WSGIRequestHandler
     if proto not in _HCACHE:
         _HCACHE[proto] = type("H" + proto[-1], (WSGIRequestHandler,), {"protocol_version": proto})
@@ -858,6 +899,9 @@ def drive_handler(raw: bytes, app, proto: str) -> bytes:
     srv = _Srv()
     srv.app = app
     a, b = socket.socketpair()
+    if cuts:
+        a = SegSocket(fileno=a.detach())
+        a.set_cuts(cuts)
     try:
         b.sendall(raw)
         b.shutdown(socket.SHUT_WR)
@@ -1246,18 +1290,32 @@ def run(chk: Check) -> None:
             impl_out.append("S" + hexs(masked))
             cases.append(case)
             continue
-        case = {"kind": "e2e", "request": rq["raw"].hex(), "response": {"status": rs["status"], "headers": rs["headers"],
+        # segmentation of the request as it reaches the server: inside the headers, inside a size line, between CR and LF,
+        # inside a chunk payload (the buffered rfile must hide it from the application)
+        cuts = None
+        if rng.random() < 0.5:
+            body_at = len(rq["raw"]) - len(rq["wire_body"])
+            cand = [i + 1 for i in range(len(rq["raw"]) - 1) if rq["raw"][i:i + 2] == b"\r\n"]
+            cuts = [rng.randrange(1, max(2, len(rq["raw"]))) for _ in range(rng.choice([1, 2, 3]))]
+            if rq["wire_body"]:
+                cuts += [rng.randrange(body_at, len(rq["raw"]) + 1) for _ in range(rng.choice([1, 2, 4]))]
+            if cand and rng.random() < 0.6:
+                cuts.append(rng.choice(cand))
+            if rng.random() < 0.15:
+                cuts = list(range(1, len(rq["raw"])))          # byte by byte
+        case = {"kind": "e2e", "request": rq["raw"].hex(), "cuts": cuts, "response": {"status": rs["status"], "headers": rs["headers"],
                                                                           "pieces": [p.hex() for p in rs["pieces"]], "n_write": rs["n_write"],
                                                                           "proto": rs["proto"]}, "ops": dops}
         try:
-            raw_resp = with_timeout(drive_handler, 10, rq["raw"], app, rs["proto"])
+            raw_resp = with_timeout(drive_handler, 10, rq["raw"], app, rs["proto"], cuts)
         except ImplTimeout:
             chk.fail("hang", "request handler did not finish within 10 s", case)
             continue
         except Exception as e:  # noqa: BLE001
             chk.fail("handler-crash", f"handler raised {type(e).__name__}: {e}", case)
             continue
-        chk.case(("e2e", rq["raw"], rs["status"], tuple(rs["headers"]), tuple(rs["pieces"]), rs["n_write"], rs["proto"], tuple(dops)),
+        chk.count("e2e:segmented" if cuts else "e2e:one-segment")
+        chk.case(("e2e", rq["raw"], tuple(cuts or ()), rs["status"], tuple(rs["headers"]), tuple(rs["pieces"]), rs["n_write"], rs["proto"], tuple(dops)),
                  nontrivial=True, sample={"request": rq["raw"][:80].decode("latin1"), "response": raw_resp[:80].decode("latin1")})
         chk.count("e2e:body=" + rq["body_kind"])
 
@@ -1457,7 +1515,8 @@ def replay(rep) -> int:
                 w(p)
             return iter(pieces[rs["n_write"]:])
         print("request:", bytes.fromhex(inp["request"]))
-        print("client received:", drive_handler(bytes.fromhex(inp["request"]), app, rs["proto"]))
+        print("request segments cut at:", inp.get("cuts"))
+        print("client received:", drive_handler(bytes.fromhex(inp["request"]), app, rs["proto"], inp.get("cuts")))
         return 0
     print("input:", json.dumps(inp, indent=1))
     return 0
